@@ -9,6 +9,10 @@
 //     variables and path condition;
 //   - every assignment to a security-relevant field of a config (x.InsecureSkipVerify = ..., ...) and
 //     every mention of the identifier InsecureSkipVerify;
+//   - for every such assignment whose value is a func literal (x.VerifyPeerCertificate = func...): a
+//     "hook" - its path condition, the source text of the literal and the local assignments that
+//     reach the variables the literal captures (and the variable x itself), transitively, each with
+//     its path condition (variables are followed by go/parser's object resolution, not by name);
 //   - how CollectorInput's security fields reach the CollectingProcess (pkg/collector/process.go);
 //
 // and writes them as Lean source (IpfixModel/Generated/TLS.lean). The decision model of C18
@@ -94,11 +98,28 @@ type call struct {
 
 type assign struct{ file, fn, lhs, rhs string }
 
+// localDef is an assignment statement of the function being scanned: the variables it (re)defines and uses
+type localDef struct {
+	pos        token.Pos
+	lhs, rhs   string
+	conds      []string
+	sets, uses []*ast.Object
+}
+
+type hook struct {
+	file, fn, lhs, body string
+	conds               []string
+	lit                 *ast.FuncLit
+	root                *ast.Object // the variable whose field is assigned
+	defs                []localDef
+}
+
 var (
 	lits      []configLit
 	calls     []call
 	assigns   []assign
 	mentions  [][2]string
+	hooks     []hook
 	passThru  [][2]string
 	localFuns = map[string]bool{}
 	producers = map[string]bool{}
@@ -108,6 +129,55 @@ type scanner struct {
 	file    string            // path relative to the repo
 	fn      string            // enclosing function
 	aliases map[string]string // local import name -> canonical short name
+	defs    []localDef        // every assignment statement of the function, in source order
+}
+
+// varsIn: the local variables (resolved by the parser) mentioned below n
+func varsIn(n ast.Node) []*ast.Object {
+	var out []*ast.Object
+	ast.Inspect(n, func(m ast.Node) bool {
+		if id, ok := m.(*ast.Ident); ok && id.Obj != nil && id.Obj.Kind == ast.Var {
+			out = append(out, id.Obj)
+		}
+		return true
+	})
+	return out
+}
+
+// reaching: the assignments of the function outside the hook's literal that define a variable the literal
+// captures, the variable whose field the hook is assigned to, or a variable used by such an assignment
+func (s *scanner) reaching(h hook) []localDef {
+	want := map[*ast.Object]bool{h.root: h.root != nil}
+	for _, o := range varsIn(h.lit) {
+		if o.Pos() < h.lit.Pos() || o.Pos() >= h.lit.End() {
+			want[o] = true
+		}
+	}
+	take := map[int]bool{}
+	for changed := true; changed; {
+		changed = false
+		for i, d := range s.defs {
+			if take[i] || (d.pos >= h.lit.Pos() && d.pos < h.lit.End()) {
+				continue
+			}
+			for _, o := range d.sets {
+				if want[o] {
+					take[i], changed = true, true
+					for _, u := range d.uses {
+						want[u] = true
+					}
+					break
+				}
+			}
+		}
+	}
+	var out []localDef
+	for i, d := range s.defs {
+		if take[i] {
+			out = append(out, d)
+		}
+	}
+	return out
 }
 
 func (s *scanner) pkgOf(x ast.Expr) (string, bool) {
@@ -215,6 +285,17 @@ func (s *scanner) stmt(st ast.Stmt, conds []string) {
 		s.stmt(x.Stmt, conds)
 	case *ast.AssignStmt:
 		var lhs []string
+		d := localDef{pos: x.Pos(), conds: copyConds(conds)}
+		for _, l := range x.Lhs {
+			if id, ok := l.(*ast.Ident); ok && id.Obj != nil {
+				d.sets = append(d.sets, id.Obj)
+			}
+		}
+		for _, r := range x.Rhs {
+			d.uses = append(d.uses, varsIn(r)...)
+		}
+		d.lhs, d.rhs = strings.Join(renderAll(x.Lhs), ", "), strings.Join(renderAll(x.Rhs), ", ")
+		s.defs = append(s.defs, d)
 		for _, l := range x.Lhs {
 			lhs = append(lhs, render(l))
 			if sel, ok := l.(*ast.SelectorExpr); ok && securityFields[sel.Sel.Name] {
@@ -229,6 +310,17 @@ func (s *scanner) stmt(st ast.Stmt, conds []string) {
 					rhs = render(x.Rhs[0])
 				}
 				assigns = append(assigns, assign{s.file, s.fn, render(l), rhs})
+				if len(x.Rhs) == len(x.Lhs) {
+					for i := range x.Lhs {
+						if lit, ok := x.Rhs[i].(*ast.FuncLit); ok && x.Lhs[i] == l {
+							h := hook{file: s.file, fn: s.fn, lhs: render(l), body: rhs, conds: copyConds(conds), lit: lit}
+							if id, ok := sel.X.(*ast.Ident); ok {
+								h.root = id.Obj
+							}
+							hooks = append(hooks, h)
+						}
+					}
+				}
 			}
 			s.exprs(l, conds, nil)
 		}
@@ -390,7 +482,11 @@ func main() {
 				continue
 			}
 			s := &scanner{file: rel, fn: fd.Name.Name, aliases: al}
+			first := len(hooks)
 			s.block(fd.Body, nil)
+			for i := first; i < len(hooks); i++ {
+				hooks[i].defs = s.reaching(hooks[i])
+			}
 		}
 	}
 	// how the collector's input reaches the fields the servers read (keyed literal of CollectingProcess)
@@ -424,6 +520,10 @@ func main() {
 	b.WriteString("structure ConfigLit where\n  file : String\n  func : String\n  kind : String\n  conds : List String\n  fields : List (String × String)\n\n")
 	b.WriteString("/-- a Dial/Listen/Client/Server call of crypto/tls, pion/dtls or net, or a call of a local function that builds a config -/\n")
 	b.WriteString("structure Call where\n  file : String\n  func : String\n  callee : String\n  args : List String\n  lhs : List String\n  conds : List String\n\n")
+	b.WriteString("/-- a local assignment that reaches a hook: left and right hand side (source text) and path condition -/\n")
+	b.WriteString("structure LocalDef where\n  lhs : String\n  rhs : String\n  conds : List String\n\n")
+	b.WriteString("/-- a func literal assigned to a security-relevant field of a config after its construction: path condition, source text of the\n    literal, and the assignments (outside the literal) that reach the variables it captures and the config variable, transitively -/\n")
+	b.WriteString("structure Hook where\n  file : String\n  func : String\n  lhs : String\n  conds : List String\n  body : String\n  defs : List LocalDef\n\n")
 	b.WriteString("def configLits : List ConfigLit := [")
 	for i, l := range lits {
 		if i > 0 {
@@ -456,6 +556,18 @@ func main() {
 			b.WriteString(", ")
 		}
 		fmt.Fprintf(&b, "(%s, %s, %s, %s)", q(a.file), q(a.fn), q(a.lhs), q(a.rhs))
+	}
+	b.WriteString("]\n\n")
+	b.WriteString("def hooks : List Hook := [")
+	for i, h := range hooks {
+		if i > 0 {
+			b.WriteString(",")
+		}
+		var ds []string
+		for _, d := range h.defs {
+			ds = append(ds, fmt.Sprintf("\n      { lhs := %s, rhs := %s,\n        conds := %s }", q(d.lhs), q(d.rhs), qlist(d.conds)))
+		}
+		fmt.Fprintf(&b, "\n  { file := %s, func := %s, lhs := %s,\n    conds := %s,\n    body := %s,\n    defs := [%s] }", q(h.file), q(h.fn), q(h.lhs), qlist(h.conds), q(h.body), strings.Join(ds, ","))
 	}
 	b.WriteString("]\n\n")
 	b.WriteString("/-- every mention of the identifier InsecureSkipVerify: (file, function) -/\n")
